@@ -131,14 +131,8 @@ def r05_2(ctx: Ctx):
         return [s]
 
     at, exits, parent = typestate(cfg, [0], node_fn)
-    normal_exits = set()
     # exits via raise do not count
-    for p, lab in cfg.exit.pred:
-        if lab == "raise":
-            continue
-        for s in at[p.id]:
-            for s2 in node_fn(p, s):
-                normal_exits.add(s2)
+    normal_exits = exits.normal()
     bad = [s for s in normal_exits if s != 1]
     if bad:
         obs.append(ctx.ob("R05.2", f, f.node, status=VIOLATION, detail=f"a path through run_step increments the metaepoch counter {bad[0] if bad[0] < 2 else '2+'} times", witness=witness_path(cfg, parent, cfg.exit.id, bad[0]), construct="paths"))
@@ -340,7 +334,10 @@ def engine_typestate(ctx: Ctx, f, rule="R05.4", between_generations: bool = True
             obs.append(ctx.ob(rule, f, f.node, status=VIOLATION, detail="a path on which the GSC was observed true leaves run_metaepoch without `_active = False`", witness=witness_path(cfg, parent, cfg.exit.id, s), construct="exit-after-gsc-true"))
         if exit_dirty and s[0] in ("DIRTY", "FLAGGED") and not s[1]:
             # one-shot engines deactivate unconditionally; every other engine consults the GSC after its last evaluation
-            obs.append(ctx.ob(rule, f, f.node, status=VIOLATION, detail="a path leaves run_metaepoch after an evaluation without consulting the GSC and without deactivating the deme (the deme would never observe the stop condition)", witness=witness_path(cfg, parent, cfg.exit.id, s), construct="exit-dirty"))
+            # an evaluating loop header (`for pop in self._generations():`) also "evaluates" on the call that merely finds the
+            # generator exhausted; whether that last call evaluates anything is a fact about the generator's body
+            lazy_src = any(n.kind == "forhead" for n in eval_nodes)
+            obs.append(ctx.ob(rule, f, f.node, status=INCONCLUSIVE if lazy_src else VIOLATION, detail="a path leaves run_metaepoch after an evaluation without consulting the GSC and without deactivating the deme (the deme would never observe the stop condition)" if not lazy_src else "the generations are produced by a generator consumed in a loop header: cannot tell whether its last, exhausting call evaluates anything", witness=witness_path(cfg, parent, cfg.exit.id, s), construct="exit-dirty"))
     return obs, eval_nodes
 
 
